@@ -502,6 +502,7 @@ def unescape_rule(ctx, rid):
 
 
 def serial_raw_rule(ctx, rid):
+    ctx.mark('serial-raw', rid)
     ctx.rule(rid, 'the serial line is transparent for all 256 byte values: the termios structure that SerialTransport::openInternal '
              'hands to tcsetattr is built from zero (memset / value initialisation on every path, no whole-structure assignment '
              'behind it), input flags are only set from {IGNBRK, IGNPAR} and output flags are not set at all - inherited or '
